@@ -11,44 +11,34 @@
 From ZV Require Import Base.Bytes Base.Res C14.Model C14.Spec C14.Proofs.
 Open Scope N_scope.
 
-(* every split, every handshake leftover outside the known class *)
-Theorem C14_frames_partial : forall (pf : parse_fields) (ms : list smsg) (cut : nat) (k : nat -> N),
-  Forall (valid_msg pf) ms -> ~ Known_C14 ms cut ->
+(* every list of valid messages, every handshake cut, every function choosing the size of each recvmsg answer
+   (full strength since fix: e5b20c34 — the statement refuted on the pinned tree, formerly C14_full_statement) *)
+Theorem C14_frames : forall (pf : parse_fields) (ms : list smsg) (cut : nat) (k : nat -> N),
+  Forall (valid_msg pf) ms ->
   fst (run_reader pf (bytes_oracle k) (wire ms) cut) = expected ms.
-Proof. exact frames_partial. Qed.
-Print Assumptions C14_frames_partial.
+Proof. exact frames. Qed.
+Print Assumptions C14_frames.
 
 (* ... and the reader has then consumed the whole stream and holds no leftovers *)
 Theorem C14_frames_state : forall (pf : parse_fields) (ms : list smsg) (cut : nat) (k : nat -> N),
-  Forall (valid_msg pf) ms -> ~ Known_C14 ms cut ->
+  Forall (valid_msg pf) ms ->
   let st := snd (run_reader pf (bytes_oracle k) (wire ms) cut) in
   arb st = [] /\ arfds st = [] /\ strm st = [].
 Proof. exact frames_state. Qed.
 Print Assumptions C14_frames_state.
 
-(* full strength when the handshake left nothing behind *)
-Theorem C14_frames_no_leftover : forall (pf : parse_fields) (ms : list smsg) (k : nat -> N),
-  Forall (valid_msg pf) ms -> fst (run_reader pf (bytes_oracle k) (wire ms) 0) = expected ms.
-Proof. exact frames_no_leftover. Qed.
-Print Assumptions C14_frames_no_leftover.
+(* no residual class: for ANY stream, valid or hostile, any oracle (EOF and I/O errors included), receive_message never
+   panics provided the field deserializer does not; in particular a peer that declares more descriptors than it sent
+   now gets Error::MissingParameter where the pinned tree panicked in drain(..num_pending) *)
+Theorem C14_no_panic : forall (pf : parse_fields) (o : oracle) (seq : N) (st : rstate) (p : panic),
+  (forall big b q, pf big b <> Panic q) -> snd (receive_message pf o seq st) <> Panic p.
+Proof. exact receive_no_panic. Qed.
+Print Assumptions C14_no_panic.
 
-(* the known class is about descriptors only *)
-Theorem C14_known_needs_fds : forall (ms : list smsg) (cut : nat),
-  Forall (fun m => sm_fds m = []) ms -> known_c14 ms cut = false.
-Proof. exact known_nofd. Qed.
-Print Assumptions C14_known_needs_fds.
-
-(* known finding: descriptors read ahead by the handshake + a buffered message without descriptors *)
-Theorem C14_leftover_fd_refuted : exists (ms : list smsg) (cut : nat) (k : nat -> N),
-  Forall (valid_msg std_fields) ms /\ Known_C14 ms cut /\
-  fst (run_reader std_fields (bytes_oracle k) (wire ms) cut) = [OErr EMissing] /\
-  fst (run_reader std_fields (bytes_oracle k) (wire ms) cut) <> expected ms.
-Proof. exact leftover_fd_refuted. Qed.
-Print Assumptions C14_leftover_fd_refuted.
-
-Theorem C14_full_statement_refuted : ~ C14_full_statement.
-Proof. exact full_statement_refuted. Qed.
-Print Assumptions C14_full_statement_refuted.
+Theorem C14_no_panic_std : forall (o : oracle) (seq : N) (st : rstate) (p : panic),
+  snd (receive_message std_fields o seq st) <> Panic p.
+Proof. exact receive_no_panic_std. Qed.
+Print Assumptions C14_no_panic_std.
 
 (* a header declaring more than 128 MiB: rejected with ExcessData in the state reached right after its 16 bytes
    were obtained — no further oracle answer is consumed, exactly 16 bytes have left buffer + stream; any oracle *)
